@@ -282,7 +282,7 @@ def build(tier, seed):
 
     def structural():
         mod = C03.load()
-        io_ = src.shadow_load(IO, {"PauliSum": mod.PauliSum, "PauliTerm": mod.PauliTerm})
+        io_ = src.shadow_load(IO, {"PauliSum": mod.PauliSum, "PauliTerm": mod.PauliTerm}, rebind={"orquestra.quantum.operators._pauli_operators": mod})
 
         class Re:   # coefficient with symbolic real and imaginary parts, as convert_op_to_dict reads them
             pass
